@@ -1,6 +1,6 @@
 (* C03 — property theorems about the size-limited encoder model (Model.v).
    Statements only; proofs are applications of lemmas from Inv.v / Trunc.v. *)
-From HV Require Import Lib.Base C03.Model C03.Inv C03.Trunc.
+From HV Require Import Lib.Base C03.Model C03.Inv C03.Trunc C02.RecRt C02.MsgRt.
 Open Scope N_scope.
 
 (* Whatever the message and the limit, a successful encoding is never longer than the limit. *)
@@ -50,6 +50,20 @@ Theorem C03_message_truncation : forall m L st,
   emit_message m (enc_new L) = Ok st -> msg_run m (enc_new L) st.
 Proof. intros m L st E. apply emit_message_sound; [apply wfb_new|exact E]. Qed.
 Print Assumptions C03_message_truncation.
+
+(* The property's central clause, on the model: for every message and every limit, a successful
+   encoding reads back — header counts = records present, every question, a PREFIX of every section
+   (each record field by field, names through the compression pointers), TC = original TC or
+   "something was dropped", last record ending exactly at the end of the output.
+   (Proved in C02/MsgRt.v on top of this directory's frame invariant and section_run.) *)
+Theorem C03_truncated_output_reads_back : forall m L b,
+  msg_wf m -> encode L m = OBytes b -> msg_readable b m /\ (length b <= L)%nat.
+Proof.
+  intros m L b Hw E. split; [|eapply C03_len_le_limit; exact E].
+  unfold encode in E. destruct (emit_message m (enc_new L)) as [st|] eqn:Em; [|discriminate].
+  inversion E; subst. apply (emit_message_rt m L st Hw Em).
+Qed.
+Print Assumptions C03_truncated_output_reads_back.
 
 (* Errors other than "does not fit" are reported, never turned into a truncation. *)
 Theorem C03_other_errors_propagate : forall recs c st e sf,
